@@ -283,6 +283,36 @@ func ruleC14Families(c *Ctx) {
 				}
 			}
 		}
+		// nothing else is conjoined with the Changed() tests: a further condition in
+		// the same guard (one whose other branch skips the read exactly as a given
+		// option does) makes the configuration ineffective in some runs
+		skipOf := func(f condFact) *ssa.BasicBlock {
+			b := f.If.Block()
+			t := b.Succs[1]
+			if !f.Truth {
+				t = b.Succs[0]
+			}
+			for steps := 0; steps < 4 && len(t.Instrs) == 1 && len(t.Succs) == 1; steps++ {
+				t = t.Succs[0]
+			}
+			return t
+		}
+		skips := map[*ssa.BasicBlock]bool{}
+		for _, f := range factsAt(call.Block()) {
+			cond, truth := normCond(f.Cond, f.Truth)
+			if ch, ok := cond.(*ssa.Call); ok && !truth && calleeQ(&ch.Call) == "(*github.com/spf13/pflag.FlagSet).Changed" {
+				skips[skipOf(f)] = true
+			}
+		}
+		for _, f := range factsAt(call.Block()) {
+			cond, _ := normCond(f.Cond, f.Truth)
+			if ch, ok := cond.(*ssa.Call); ok && calleeQ(&ch.Call) == "(*github.com/spf13/pflag.FlagSet).Changed" {
+				continue
+			}
+			if skips[skipOf(f)] {
+				c.violate("C14.families", key+":only-if-not-given", f.If.Pos(), name, fmt.Sprintf("gitconfig key %s is read only under a further condition (`%s`) besides 'no option of its family was given': in the other case the configured value has no effect although no option overrides it", key, strings.TrimSpace(cond.String())))
+			}
+		}
 		var missing []string
 		for _, f := range fam {
 			if !guards[f] {
@@ -754,7 +784,24 @@ func ruleC19JSON(c *Ctx) {
 						return
 					}
 					q := calleeQ(&call.Call)
-					if q == "encoding/json.MarshalIndent" || q == "encoding/json.Marshal" || q == modQ("/sizes", "*HistorySize", "JSON") {
+					if q == "encoding/json.MarshalIndent" || q == "encoding/json.Marshal" {
+						// what is marshalled is a typed value of the module, not a
+						// generic map or slice (through which every number becomes a
+						// float64 and 64-bit counters above 2^53 lose their digits)
+						typed := false
+						if mi, isMI := call.Call.Args[0].(*ssa.MakeInterface); isMI {
+							if n := namedOf(mi.X.Type()); n != nil && n.Obj().Pkg() != nil && strings.HasPrefix(n.Obj().Pkg().Path(), modPath) {
+								typed = true
+							}
+						}
+						if typed {
+							c.hold("C19.json", "output-typed", call.Pos(), "the report is marshalled from its own typed value")
+						} else {
+							c.violate("C19.json", "output-typed", call.Pos(), fnName(mainImpl), "the JSON written is marshalled from a generic value (map/slice/interface) instead of the report's typed value: numbers pass through float64, so a 64-bit counter above 2^53 (or a saturated one) is not emitted with its exact digits")
+						}
+						return
+					}
+					if q == modQ("/sizes", "*HistorySize", "JSON") {
 						return
 					}
 					okAll = false
@@ -868,6 +915,25 @@ func ruleC19Footnotes(c *Ctx) {
 					_, isSlice := arg.Type().Underlying().(*types.Slice)
 					if isMap || (isSlice && instrDominates(l, app)) {
 						okNum = true
+					}
+				}
+			}
+		}
+	}
+	// … or the length of the list right after this footnote was appended
+	if l, ok := c.resolve(mapUpd.Value).(*ssa.Call); ok && isBuiltin(&l.Call, "len") {
+		arg := l.Call.Args[0]
+		if arg == ssa.Value(app) {
+			okNum = true
+		}
+		// a reload of the field the append result was stored to
+		if ld, isLoad := arg.(*ssa.UnOp); isLoad && ld.Op == token.MUL && isSliceType(arg.Type()) {
+			if lfa, isFA := ld.X.(*ssa.FieldAddr); isFA {
+				for _, r := range *app.Referrers() {
+					if st, isSt := r.(*ssa.Store); isSt && st.Val == ssa.Value(app) && instrDominates(st, l) {
+						if sfa, isFA2 := st.Addr.(*ssa.FieldAddr); isFA2 && sfa.X == lfa.X && sfa.Field == lfa.Field && st.Block() == l.Block() {
+							okNum = true
+						}
 					}
 				}
 			}
@@ -990,6 +1056,14 @@ func ruleC19Footnotes(c *Ctx) {
 						if mi, ok := el.(*ssa.MakeInterface); ok && isPosPlusOne(mi.X) {
 							okPos = true
 						}
+					}
+				} else if q := calleeQ(&call.Call); q == "strconv.Itoa" || q == "strconv.FormatInt" || q == "strconv.FormatUint" {
+					a := call.Call.Args[0]
+					if cv, isConv := a.(*ssa.Convert); isConv {
+						a = cv.X
+					}
+					if isPosPlusOne(a) {
+						okPos = true
 					}
 				} else if cal := call.Call.StaticCallee(); cal != nil && c.inRuleScope(cal) {
 					for _, a := range call.Call.Args {
